@@ -531,7 +531,7 @@ def drive(tier, histories=None, maxn=None, blocks=None):
     return {'kind': 'drive', 'name': 'drive', 'cmd': 'drive', 'trace_module': 'CoreTrace',
             'trace_cfg': {'invariants': ['TraceReport']},
             'x': 'histories=%d,maxn=%d,blocks=%d' % (histories or (24 if q else 400), maxn or (40 if q else 64), blocks or (24 if q else 40)),
-            'timeout': 900 if q else 7200}
+            'timeout': 1800 if q else 10800}
 
 
 DRIVE_RULE = (' In addition (R->T) a driver runs long random block histories (deletion shapes: nothing, everything, aligned subtrees, '
@@ -595,7 +595,7 @@ def stumpalg(tier):
     q = tier == 'quick'
     return {'kind': 'spec_check', 'name': 'stumpalg_refines', 'module': 'StumpAlg', 'spec': 'SSpec',
             'constants': {'MaxN': 6 if q else 8, 'MaxAdds': 2 if q else 3, 'MaxClaim': 0, 'MaxProof': 0, 'NJunk': 0, 'Variant': '"fixed"'},
-            'invariants': ['RootsRefine', 'UpdateRefine'], 'timeout': 900 if q else 7200}
+            'invariants': ['RootsRefine', 'UpdateRefine'], 'timeout': 1800 if q else 10800}
 
 
 for _p in ('C01', 'C11'):
@@ -673,7 +673,7 @@ def mapalg(tier):
     q = tier == 'quick'
     return {'kind': 'spec_check', 'name': 'mapforestalg_refines', 'module': 'MapForestAlg', 'spec': 'MUSpec',
             'constants': {'MaxN': 8 if q else 10, 'MaxAdds': 4 if q else 5, 'UVariant': '"ok"'}, 'invariants': ['MapRefines'],
-            'timeout': 900 if q else 7200}
+            'timeout': 1800 if q else 10800}
 
 
 def mapalg_neg(tier):
@@ -715,7 +715,7 @@ def drive_big(tier):
     q = tier == 'quick'
     return {'kind': 'drive', 'name': 'drive_big', 'cmd': 'drive', 'trace_module': 'CoreTrace',
             'trace_cfg': {'invariants': ['TraceReport']},
-            'x': 'big=1,histories=%d,maxn=%d' % (2 if q else 6, 9000 if q else 12000), 'timeout': 900 if q else 3600}
+            'x': 'big=1,histories=%d,maxn=%d' % (2 if q else 6, 9000 if q else 12000), 'timeout': 1800 if q else 7200}
 
 
 BIG_RULE = (' Large forests: a few histories with thousands of leaves (one block of 6000-8000 additions; every fourth leaf of a quarter '
@@ -754,7 +754,7 @@ for _p in ('C01', 'C10'):
                          'carries the hash of a leaf the same block deletes, and the expectations are the reference values under that substitution.')
 def relabel(tier, acts, **kw):
     q = tier == 'quick'
-    return core('core_relabel', acts, 5 if q else 6, 2, reuse=1, timeout=900 if q else 7200, **kw)
+    return core('core_relabel', acts, 5 if q else 6, 2, reuse=1, timeout=1800 if q else 10800, **kw)
 
 
 RELABEL_RULE = (' Stage core_relabel: spec/Core.tla with MaxReuse=1 - leaf and hash are told apart: in one block per behaviour the first '
@@ -794,7 +794,7 @@ def drive_sparse(tier):
     q = tier == 'quick'
     return {'kind': 'drive', 'name': 'drive_sparse', 'cmd': 'drive', 'trace_module': 'CoreTrace',
             'trace_cfg': {'invariants': ['TraceReport']},
-            'x': 'big=2,histories=%d,maxn=16000' % (4 if q else 24), 'timeout': 900 if q else 5400}
+            'x': 'big=2,histories=%d,maxn=16000' % (4 if q else 24), 'timeout': 1800 if q else 10800}
 
 
 SPARSE_RULE = (' Sparse tall forests (stage drive_sparse): scripted histories on forests of 512-2047 leaves in which a partial forest '
@@ -816,7 +816,7 @@ def light_wide(tier, acts, name='light_wide'):
     q = tier == 'quick'
     u = 1 if 'undoblock' in acts else 0
     if q:
-        return [light(name, acts, 16, 2, stack=1, und=u, minn=14, initdead=0, initheld=2, timeout=900)]
+        return [light(name, acts, 16, 2, stack=1, und=u, minn=14, initdead=0, initheld=2, timeout=1800)]
     # (stack=1 also without undo: in a wide configuration a block is taken from initial states only, recognised by the empty stack)
     return [light(name, acts, 16, 5, stack=1, und=u, minn=11, initdead=0, initheld=2, timeout=7200),
             light(name + '_dead', acts, 16, 3, stack=1, und=u, minn=13, initdead=1, initheld=1, timeout=7200)]
@@ -844,7 +844,7 @@ PLAN['C07']['bounds'] = {'quick': PLAN['C07']['bounds']['quick'] + '; wide: n in
 def encundo(tier):
     q = tier == 'quick'
     return core('core_enc_then_undo', ['mod', 'enc', 'undo'], 3 if q else 4, 2, stack=1, und=1, undone=True, trackenc=True,
-                invariants=False, timeout=900 if q else 7200)
+                invariants=False, timeout=1800 if q else 10800)
 
 
 ENCUNDO_RULE = (' Stage core_enc_then_undo: with TrackEnc the encoding of the last block is part of the state, so every accepted encoding '
@@ -887,7 +887,7 @@ PLAN['C06']['rule'] += (' Spec level: spec/MapForestAlg.tla also models Undo as 
 # were only caught by the thorough tier)
 def undo_wide_quick():
     return core('core_undo_wide', ['mod', 'undo'], 16, 5, stack=1, und=1, minn=11, initlive=2, invariants=False,
-                x='only=undo,rows=0;3;63', timeout=900)
+                x='only=undo,rows=0;3;63', timeout=1800)
 
 
 _c06q = PLAN['C06']['stages']
@@ -898,14 +898,14 @@ PLAN['C06']['bounds']['quick'] += '; wide: every state with 11 leaves of which a
 # --------------------------------------------------------------------------- lifted replay: the same behaviours at 2^31 .. 2^62 leaves
 def lift(tier):
     q = tier == 'quick'
-    st = core('lift_bfs', ['mod'], 8 if q else 10, 3 if q else 4, invariants=False, timeout=900 if q else 7200)
+    st = core('lift_bfs', ['mod'], 8 if q else 10, 3 if q else 4, invariants=False, timeout=1800 if q else 10800)
     st['fam'] = 'lift'
     return st
 
 
 def liftlemma(tier):
     return {'kind': 'spec_check', 'name': 'lift_lemma', 'module': 'Lift', 'spec': 'Spec',
-            'constants': {'S': 3, 'MaxM': 5 if tier == 'quick' else 9}, 'invariants': ['LiftOK'], 'timeout': 900}
+            'constants': {'S': 3, 'MaxM': 5 if tier == 'quick' else 9}, 'invariants': ['LiftOK'], 'timeout': 1800}
 
 
 LIFT_RULE = (' Lifted replay (stages lift_lemma, lift_bfs): the reference semantics is invariant under putting a forest on top of full high '
@@ -965,7 +965,7 @@ PLAN['C14']['rule'] += (' Stages lift_ops_*: the same operations on lifted fores
 
 def lift_undo(tier):
     q = tier == 'quick'
-    st = core('lift_undo', ['mod', 'undo'], 6 if q else 7, 3, stack=1, und=1, invariants=False, timeout=900 if q else 7200)
+    st = core('lift_undo', ['mod', 'undo'], 6 if q else 7, 3, stack=1, und=1, invariants=False, timeout=1800 if q else 10800)
     st['fam'] = 'lift'
     return st
 
@@ -980,7 +980,7 @@ PLAN['C06']['rule'] += (' Stage lift_undo: block/undo behaviours replayed on lif
 def light_sparse(tier, acts):
     u = 1 if 'undoblock' in acts else 0
     q = tier == 'quick'
-    return light('light_wide7', acts, 8 if q else 9, 2, stack=1, und=u, minn=7, initdead=9, initheld=2, timeout=900 if q else 7200)
+    return light('light_wide7', acts, 8 if q else 9, 2, stack=1, und=u, minn=7, initdead=9, initheld=2, timeout=1800 if q else 10800)
 
 
 for _p, _acts in (('C07', ['block']), ('C08', ['block', 'undoblock'])):
@@ -999,7 +999,7 @@ PLAN['C12']['rule'] += (' Stage partial_refused: after every refused call of spe
 _c03e = PLAN['C03']['stages']
 PLAN['C03']['stages'] = lambda tier, seed: _c03e(tier, seed) + [
     partial('lock_effect', ['mod', 'vrem', 'ingest', 'prune', 'undo'], 3 if tier == 'quick' else 4, 2, stack=1, und=1, fam='lockrun',
-            x='effectonly=1', harness_workers=2, timeout=900 if tier == 'quick' else 7200)]
+            x='effectonly=1', harness_workers=2, timeout=1800 if tier == 'quick' else 10800)]
 PLAN['C03']['rule'] += (' Stage lock_effect: remembering verifications with a real effect race with every writer operation of spec/Partial.tla in '
                         'both orders (suspended through the hook points); results and final forest must be those of one of the two sequential '
                         'orders - a verification whose check and store are not one atomic step leaves hashes verified against another state.')
@@ -1020,7 +1020,7 @@ PLAN['C06']['rule'] += SPARSE_RULE + (' The moves of tall subtrees are undone an
 # --------------------------------------------------------------------------- light client whose proof went through a restriction
 def light_restrict(tier):
     q = tier == 'quick'
-    return light('light_restrict', ['block', 'undoblock', 'restrict'], 4 if q else 5, 2, stack=1, und=1, timeout=900 if q else 7200)
+    return light('light_restrict', ['block', 'undoblock', 'restrict'], 4 if q else 5, 2, stack=1, und=1, timeout=1800 if q else 10800)
 
 
 for _p in ('C08', 'C14'):
@@ -1050,7 +1050,7 @@ def drive_mid(tier):
     q = tier == 'quick'
     return {'kind': 'drive', 'name': 'drive_mid', 'cmd': 'drive', 'trace_module': 'CoreTrace',
             'trace_cfg': {'invariants': ['TraceReport']},
-            'x': 'big=3,histories=%d,maxn=400' % (8 if q else 60), 'timeout': 900 if q else 7200}
+            'x': 'big=3,histories=%d,maxn=400' % (8 if q else 60), 'timeout': 1800 if q else 10800}
 
 
 for _p in ('C07', 'C08'):
@@ -1093,7 +1093,7 @@ def pollardalg(tier):
     q = tier == 'quick'
     return {'kind': 'spec_check', 'name': 'pollardalg_refines', 'module': 'PollardAlg', 'spec': 'PUSpec',
             'constants': {'MaxN': 6 if q else 7, 'MaxAdds': 3, 'PVariant': '"ok"'}, 'invariants': ['PollardRefines', 'AuntOK'],
-            'timeout': 900 if q else 7200}
+            'timeout': 1800 if q else 10800}
 
 
 def pollardalg_neg(tier):
